@@ -27,6 +27,7 @@ func c14(c *eng.Ctx, r *eng.Report) {
 		"R14.7 VerifySig is the only function of the node that evaluates the signature pairing (no second, e.g. aggregated, definition of validity), and the scalar hex printer/parser are an inverse pair. " +
 		"R14.8 the pairing is 1 as soon as either operand is the identity: optimalAte tests IsInfinity() of both its operands and sets the result to one under either (e(P,O) = e(O,Q) = 1 is what bilinearity needs at k = 0 and k = order). " +
 		"R14.9 a groupsig function whose pointer result some caller dereferences without a nil test (`*groupsig.DeserializeSign(raw)`) has no nil return — a malformed signature from a peer verifies as false, it does not crash the verifier. " +
+		"R14.16 the by-value wrapper hands out a key only when the decoder accepted the bytes: every return of ByteToPublicKey that is not the zero Pubkey lies behind `err == nil` of Deserialize — G2.Unmarshal allocates its point before it looks at the length, so after a refused decode the variable holds the point at infinity, a non-empty key under which the identity signature verifies for every message; " +
 		"R14.15 a decoder that reports an error leaves no value behind: in Signature.unmarshalExact and Pubkey.unmarshalExact no path leads from the assignment of the decoded point to an error return without the receiver being reset — DeserializeSign and the other convenience wrappers drop the error and test the value, so a valid 64-byte signature followed by junk would otherwise decode to the valid signature and verify; " +
 		"R14.14 (= R13.12) the hex form of secret keys and ids round-trips: BnInt's writer (big.Int.Text(16), minimal digits) and reader (big.Int.SetString(_, 16)) agree; " +
 		"R14.13 the zero multiple of a point is the identity: in (*curvePoint).Mul and (*twistPoint).Mul the base point enters the running sum only under a set bit of the scalar (every Set/Add that reads the base operand is dominated by scalar.Bit(i) != 0) — an accumulator seeded with the base itself returns Q for the scalar 0, so secret key 0 (or r) shares key 1's public key and e(P, 0·Q) != e(P, Q)^0; " +
@@ -59,6 +60,7 @@ func c14(c *eng.Ctx, r *eng.Report) {
 	c14MulStartsAtIdentity(c, r)
 	hexCodecAgreeAs(c, r, "R14.14")
 	c14ErrorLeavesNoValue(c, r)
+	c14WrapperZeroOnError(c, r)
 }
 
 func c14Verify(c *eng.Ctx, r *eng.Report) {
@@ -777,4 +779,37 @@ func c14ErrorLeavesNoValue(c *eng.Ctx, r *eng.Report) {
 	if n == 0 {
 		r.Fail(rule, "error-leaves-no-value:none", "", "no decoder assigning a decoded point found: the rule has lost its anchor")
 	}
+}
+
+// c14WrapperZeroOnError: see R14.16.
+func c14WrapperZeroOnError(c *eng.Ctx, r *eng.Report) {
+	const rule = "R14.16"
+	r.Min(rule, 1)
+	fn := c.Func(gsPkg, "ByteToPublicKey")
+	if !r.Anchor(fn != nil, rule, "groupsig.ByteToPublicKey") {
+		return
+	}
+	n, bad := 0, ""
+	for _, re := range eng.Returns(fn) {
+		v := re.Incoming(0)
+		if _, isZero := v.(*ssa.Const); isZero {
+			continue
+		}
+		n++
+		blk := re.Ret.Block()
+		if re.Pred != nil {
+			blk = re.Pred
+		}
+		accepted := false
+		for _, cd := range eng.EdgeConds(blk) {
+			m, isM := cd.Cmp()
+			if isM && m.Op == token.EQL && (eng.IsNilConst(m.Y) || eng.IsNilConst(m.X)) && strings.Contains(eng.Desc(m.X)+eng.Desc(m.Y), "Deserialize(") {
+				accepted = true
+			}
+		}
+		if !accepted {
+			bad = c.Pos(re.Ret.Pos())
+		}
+	}
+	r.Check(bad == "" && n >= 1, rule, "ByteToPublicKey:zero-on-error", c.Pos(fn.Pos()), "a non-zero key is returned only behind err == nil", "ByteToPublicKey can return the variable it decoded into (at "+bad+") although Deserialize reported an error: G2.Unmarshal has already allocated the point, so a too-short encoding comes back as a non-empty key holding the point at infinity, and VerifySig(ByteToPublicKey(short), anyMessage, identitySignature) is true")
 }
